@@ -18,3 +18,103 @@ pub(crate) fn dependence(p: usize, v: [u16; MAX_THREADS]) {
     assert!(a.path_id() == p && vv_raw(a.version()) == v);
     std::mem::forget(s);
 }
+
+// ------------------------------------------------------------ C08: notify_one / notify_all
+
+use crate::rt::execution::verif as ev;
+use crate::rt::scheduler::verif as sched;
+use crate::rt::thread::verif as tv;
+
+type Raw = [u16; MAX_THREADS];
+
+fn eq(a: &Raw, b: &Raw) -> bool {
+    le(a, b) && le(b, a)
+}
+
+/// World: 3 threads, one condvar (object 0); thread 0 notifies; `q` of the
+/// other threads (1, then 2) are queued in wait() in FIFO order: they have
+/// released the mutex and are parked (Blocked, no pending operation).
+fn world(q: usize) -> (crate::rt::Execution, Condvar) {
+    let mut e = ev::mk_exec(3, 1, None);
+    tv::activate(&mut e.threads, 0);
+    let mut st = State { last_access: None, waiters: VecDeque::new() };
+    let mut t = 1;
+    while t <= q {
+        st.waiters.push_back(tv::tid(t));
+        tv::th(&mut e.threads, t).state = tv::state_from_code(2);
+        t += 1;
+    }
+    let r = e.objects.insert(st);
+    let mut t = 0;
+    while t < 3 {
+        let c: Raw = kani::any();
+        tv::th(&mut e.threads, t).causality = vv(c);
+        t += 1;
+    }
+    (e, Condvar { state: r })
+}
+
+fn code_of(e: &crate::rt::Execution, t: usize) -> u8 {
+    tv::state_code(&tv::th_ref(&e.threads, t).state)
+}
+
+fn clock(e: &crate::rt::Execution, t: usize) -> Raw {
+    vv_raw(&tv::th_ref(&e.threads, t).causality)
+}
+
+fn notify_case(q: usize, all: bool) {
+    let (mut e, cv) = world(q);
+    let c = [clock(&e, 0), clock(&e, 1), clock(&e, 2)];
+    sched::enter(&mut e, || {
+        if all {
+            cv.notify_all(Location::disabled())
+        } else {
+            cv.notify_one(Location::disabled())
+        }
+    });
+    let woken = if all { q } else if q >= 1 { 1 } else { 0 };
+    // FIFO: the longest waiter first; notify_one releases exactly one, notify_all every one
+    let mut t = 1;
+    while t < 3 {
+        if t <= woken {
+            assert!(code_of(&e, t) == 0);
+            // the notifier's prior writes happen-before the woken thread's continuation
+            assert!(eq(&clock(&e, t), &max_raw(&c[t], &c[0])));
+        } else {
+            let was = if t <= q { 2 } else { 0 };
+            assert!(code_of(&e, t) == was);
+            assert!(eq(&clock(&e, t), &c[t]));
+        }
+        t += 1;
+    }
+    let st = cv.state.get(&e.objects);
+    assert!(st.waiters.len() == q - woken);
+    if q == 2 && !all {
+        assert!(st.waiters[0] == tv::tid(2));
+    }
+    assert!(eq(&clock(&e, 0), &c[0]));
+    assert!(sched::switches() == 0);
+    kani::cover!(!le(&c[0], &c[1]), "the notifier knows something thread 1 does not");
+    std::mem::forget(e);
+}
+
+vharness! {
+    /// @prop C08,C05 @tier quick @mode fast @cost 2 @funcs Condvar::notify_one,Set::unpark,Thread::unpark @bounds 3 threads, 2 queued waiters (threads 1 then 2), all clock values
+    /// notify_one wakes exactly the longest-waiting thread, which inherits the notifier's view; the other waiter stays parked and queued.
+    #[cfg_attr(kani, kani::unwind(8))]
+    fn condvar_notify_one_of_two() { notify_case(2, false) }
+}
+
+vharness! {
+    /// @prop C08,C05 @tier quick @mode fast @cost 2 @funcs Condvar::notify_all,Set::unpark @bounds 3 threads, 2 queued waiters, all clock values
+    /// notify_all wakes every queued waiter and empties the queue.
+    #[cfg_attr(kani, kani::unwind(8))]
+    fn condvar_notify_all_two() { notify_case(2, true) }
+}
+
+vharness! {
+    /// @prop C08 @tier quick @mode fast @cost 2 @funcs Condvar::notify_one @bounds 3 threads, no waiter
+    /// notify_one without waiters wakes nobody and stores nothing (a later wait still blocks).
+    #[cfg_attr(kani, kani::unwind(8))]
+    fn condvar_notify_one_none() { notify_case(0, false) }
+}
